@@ -911,6 +911,14 @@ func (e *Eng) execRange(st *State, s *ast.RangeStmt) *State {
 	// hidden index variable
 	idxObj := types.NewVar(token.NoPos, nil, fmt.Sprintf("idx%d", ord), types.Typ[types.Int])
 	st.vars[idxObj] = scalar("0", "Int", types.Typ[types.Int])
+	// the value being ranged over is evaluated once; contracts may refer to it as range<ord>
+	if x != nil && (x.Sort == "Slice" || x.Sort == "Str") {
+		rv := *x
+		if rv.Go == nil {
+			rv.Go = e.info.TypeOf(s.X)
+		}
+		st.vars[types.NewVar(token.NoPos, nil, fmt.Sprintf("range%d", ord), e.info.TypeOf(s.X))] = &rv
+	}
 	var ln string
 	switch xt.(type) {
 	case *types.Slice:
